@@ -688,3 +688,244 @@ func (ef *EnumFlow) EdgeFeasible(b *ssa.BasicBlock, k int) bool {
 	}
 	return true
 }
+
+// ---------------------------------------------------------------------------
+// Decision tables: the (acyclic) CFG of a pure predicate is unfolded into its
+// decision tree; each path constrains the input cells to a product of sets.
+
+// TableCell is one input of a decision table.
+type TableCell struct {
+	Name  string
+	D     *Domain
+	Match func(v ssa.Value) bool
+}
+
+// TableRow is one region of the input product with its result.
+type TableRow struct {
+	Sets   []Set
+	Result string // "true", "false", or a description of a non-boolean result
+}
+
+type tblState struct {
+	sets  []Set
+	alias map[ssa.Value]int   // value is exactly cell #i
+	konst map[ssa.Value]int64 // value is this constant on the current path
+}
+
+func (s tblState) clone() tblState {
+	o := tblState{sets: append([]Set{}, s.sets...), alias: map[ssa.Value]int{}, konst: map[ssa.Value]int64{}}
+	for k, v := range s.alias {
+		o.alias[k] = v
+	}
+	for k, v := range s.konst {
+		o.konst[k] = v
+	}
+	return o
+}
+
+// DecisionTable extracts the table of f over the given cells. describe renders
+// non-constant results.
+func DecisionTable(f *ssa.Function, cells []TableCell, describe func(ssa.Value) string) ([]TableRow, error) {
+	var rows []TableRow
+	var firstErr error
+	fail := func(format string, a ...interface{}) {
+		if firstErr == nil {
+			firstErr = fmt.Errorf(format, a...)
+		}
+	}
+	cellOf := func(st tblState, v ssa.Value) (int, bool) {
+		v = Strip(v)
+		if i, ok := st.alias[v]; ok {
+			return i, true
+		}
+		for i, c := range cells {
+			if c.Match(v) {
+				return i, true
+			}
+		}
+		return -1, false
+	}
+	constOf := func(st tblState, v ssa.Value) (int64, bool) {
+		v = Strip(v)
+		if k, ok := ConstInt(v); ok {
+			return k, true
+		}
+		k, ok := st.konst[v]
+		return k, ok
+	}
+	// split evaluates cond under st, returning the states in which it is true / false.
+	var split func(st tblState, cond ssa.Value) (t, fl []tblState)
+	split = func(st tblState, cond ssa.Value) (t, fl []tblState) {
+		switch x := cond.(type) {
+		case *ssa.Const:
+			if b, ok := ConstBool(x); ok {
+				if b {
+					return []tblState{st}, nil
+				}
+				return nil, []tblState{st}
+			}
+		case *ssa.UnOp:
+			if x.Op == token.NOT {
+				a, b := split(st, x.X)
+				return b, a
+			}
+		case *ssa.BinOp:
+			op := x.Op
+			switch op {
+			case token.EQL, token.NEQ, token.LSS, token.LEQ, token.GTR, token.GEQ:
+			default:
+				fail("unsupported condition %v", x)
+				return nil, nil
+			}
+			l, r := x.X, x.Y
+			if _, lc := constOf(st, l); lc {
+				if _, rc := constOf(st, r); !rc {
+					l, r = r, l
+					op = mirrorOp(op)
+				}
+			}
+			k, kok := constOf(st, r)
+			if !kok {
+				fail("comparison of two non-constant values: %v", x)
+				return nil, nil
+			}
+			if lk, lok := constOf(st, l); lok {
+				res := false
+				switch op {
+				case token.EQL:
+					res = lk == k
+				case token.NEQ:
+					res = lk != k
+				case token.LSS:
+					res = lk < k
+				case token.LEQ:
+					res = lk <= k
+				case token.GTR:
+					res = lk > k
+				case token.GEQ:
+					res = lk >= k
+				}
+				if res {
+					return []tblState{st}, nil
+				}
+				return nil, []tblState{st}
+			}
+			ci, ok := cellOf(st, l)
+			if !ok {
+				fail("branch on a value that is not a table cell: %v", x)
+				return nil, nil
+			}
+			d := cells[ci].D
+			ts := d.RefineConst(st.sets[ci], op, k)
+			fs := d.RefineConst(st.sets[ci], negateOp(op), k)
+			// a non-singleton bucket straddling k would land in both: tolerated only if identical result later
+			if ts != 0 {
+				n := st.clone()
+				n.sets[ci] = ts
+				t = append(t, n)
+			}
+			if fs != 0 {
+				n := st.clone()
+				n.sets[ci] = fs
+				fl = append(fl, n)
+			}
+			return t, fl
+		}
+		fail("unsupported condition %T", cond)
+		return nil, nil
+	}
+	depth := 0
+	var walk func(b *ssa.BasicBlock, from *ssa.BasicBlock, st tblState, onPath map[*ssa.BasicBlock]bool)
+	walk = func(b *ssa.BasicBlock, from *ssa.BasicBlock, st tblState, onPath map[*ssa.BasicBlock]bool) {
+		if firstErr != nil {
+			return
+		}
+		if onPath[b] {
+			fail("loop in decision function at block %d", b.Index)
+			return
+		}
+		depth++
+		if depth > 100000 {
+			fail("decision tree too large")
+			return
+		}
+		onPath[b] = true
+		defer delete(onPath, b)
+		st = st.clone()
+		for _, i := range b.Instrs {
+			switch x := i.(type) {
+			case *ssa.Phi:
+				idx := -1
+				for k, p := range b.Preds {
+					if p == from {
+						idx = k
+					}
+				}
+				e := x.Edges[idx]
+				delete(st.alias, x)
+				delete(st.konst, x)
+				if k, ok := constOf(st, e); ok {
+					st.konst[x] = k
+				} else if ci, ok := cellOf(st, e); ok {
+					st.alias[x] = ci
+				}
+			case *ssa.If:
+				t, fl := split(st, x.Cond)
+				for _, s := range t {
+					walk(b.Succs[0], b, s, onPath)
+				}
+				for _, s := range fl {
+					walk(b.Succs[1], b, s, onPath)
+				}
+				return
+			case *ssa.Jump:
+				walk(b.Succs[0], b, st, onPath)
+				return
+			case *ssa.Return:
+				if len(x.Results) != 1 {
+					fail("decision function must return one value")
+					return
+				}
+				rv := x.Results[0]
+				if bv, ok := ConstBool(rv); ok {
+					rows = append(rows, TableRow{st.sets, fmt.Sprint(bv)})
+					return
+				}
+				if isBoolType(rv.Type()) {
+					if _, isPhi := rv.(*ssa.Phi); !isPhi {
+						t, fl := split(st, rv)
+						for _, s := range t {
+							rows = append(rows, TableRow{s.sets, "true"})
+						}
+						for _, s := range fl {
+							rows = append(rows, TableRow{s.sets, "false"})
+						}
+						return
+					}
+				}
+				if k, ok := constOf(st, rv); ok {
+					rows = append(rows, TableRow{st.sets, fmt.Sprint(k)})
+					return
+				}
+				rows = append(rows, TableRow{st.sets, describe(rv)})
+				return
+			case *ssa.Panic:
+				rows = append(rows, TableRow{st.sets, "panic"})
+				return
+			}
+		}
+	}
+	init := tblState{alias: map[ssa.Value]int{}, konst: map[ssa.Value]int64{}}
+	for _, c := range cells {
+		init.sets = append(init.sets, c.D.Top())
+	}
+	if len(f.Blocks) > 0 {
+		walk(f.Blocks[0], nil, init, map[*ssa.BasicBlock]bool{})
+	}
+	return rows, firstErr
+}
+
+func isBoolType(t types.Type) bool {
+	b, ok := t.Underlying().(*types.Basic)
+	return ok && b.Kind() == types.Bool
+}
